@@ -36,6 +36,7 @@ structure Svc where
   resolution : Nat
   attr : String        -- Attributes.Labels / LabelSelectors (compared by canMergeServices only)
   aliases : List (String × String)   -- Attributes.Aliases as (namespace, hostname)
+  extName : Option String := none    -- Kubernetes ExternalName service (Resolution == Alias): the name it points to
 deriving DecidableEq, Repr, Inhabited
 
 structure Mesh where
@@ -150,5 +151,47 @@ def nssOfHost (svcs : List Svc) (h : String) : List String :=
 /-- `ServiceIndex.HostnameAndNamespace[h]` as an association list. -/
 def byNamespace (svcs : List Svc) (h : String) : List (String × Svc) :=
   (nssOfHost svcs h).filterMap fun ns => (lookupHN svcs h ns).map fun s => (ns, s)
+
+/-! ### `resolveServiceAliases`
+
+An ExternalName service (`Resolution == Alias`) is an alias for the hostname it names; the function
+attaches to every concrete service the list of its aliases.  `rawAlias` is keyed by (hostname,
+namespace), `unnamespacedRawAlias` by hostname: with two alias services on one hostname the Go maps
+keep an arbitrary one ("behavior is undefined"); the model keeps the first, the generator never
+produces that.  -/
+
+/-- `unnamespacedRawAlias[h]` -/
+def aliasTarget (svcs : List Svc) (h : String) : Option String :=
+  match svcs.find? fun s => s.extName.isSome && s.hostname == h with
+  | some s => s.extName
+  | none => none
+
+/-- the chain walk of `resolveServiceAliases` (`seen` detects loops; `fuel` bounds the walk, every
+    step adds a new alias hostname to `seen`) -/
+def resolveChain (svcs : List Svc) : Nat → List String → String → Option String
+  | 0, _, _ => none
+  | fuel + 1, seen, ref =>
+    match aliasTarget svcs ref with
+    | none => some ref
+    | some n => if seen.contains n then none else resolveChain svcs fuel (n :: seen) n
+
+/-- `resolvedAliases[alias]` for an alias service -/
+def resolvedAlias (svcs : List Svc) (a : Svc) : Option String :=
+  match a.extName with
+  | none => none
+  | some ref => resolveChain svcs (svcs.length + 1) [ref, a.hostname] ref
+
+def aliasLe (a b : String × String) : Bool :=
+  if a.1 != b.1 then a.1 < b.1 else !(b.2 < a.2)
+
+/-- `aliasesForService[h]`, sorted by (namespace, hostname); one entry per (hostname, namespace) key -/
+def aliasesFor (svcs : List Svc) (h : String) : List (String × String) :=
+  isort aliasLe (((svcs.filter fun a => resolvedAlias svcs a == some h).map fun a => (a.ns, a.hostname)).eraseDups)
+
+/-- `resolveServiceAliases` -/
+def resolveAliases (svcs : List Svc) : List Svc :=
+  svcs.map fun s =>
+    let l := aliasesFor svcs s.hostname
+    if l.isEmpty then s else { s with aliases := l }
 
 end IstioModel.C07
